@@ -405,4 +405,50 @@ pub fn run(r: &mut Runner) {
             rec.record(l, (1u64 << 52) + i as u64, judge_unary(&vals[i]));
         }
     });
+    {
+        // every exponent: power-of-two, 1.5 * 2^e and all-ones high words with the low word at the quarter-ulp and
+        // half-ulp thresholds (either sign) and at the smallest subnormals - values on which a validity test can go
+        // wrong in one binade only and which the comparisons then treat as invalid; each is compared with itself,
+        // its high word alone, its negation, 0, 1 and the next value, and put through the unary queries
+        let es: Vec<i32> = (-1022..=1023).collect();
+        r.notes.push("every-exponent sweep: 2046 exponents x 3 fractions x 2 signs x low words at +-(1/4, 1/2) ulp with neighbours, +-2^-1074, +-2^-1073: ordering against 6 partners in both orders, and the unary queries".to_string());
+        r.par("every exponent: threshold low words", es.len(), (es.len() * 3 * 2 * 16 * 13) as u64, |c, l| {
+            let e = es[c];
+            let mut i = 0u64;
+            for f in [0u64, 1u64 << 51, (1u64 << 52) - 1] {
+                for s in [false, true] {
+                    let h = mk_f64(s, e, f).unwrap();
+                    let mut los: Vec<f64> = vec![5e-324, -5e-324, 1e-323, -1e-323];
+                    for te in [e - 53, e - 54] {
+                        if te >= -1074 {
+                            let t = tfref::big::pow2_f64(te);
+                            for k in -1..=1 {
+                                let b = crate::util::step(t, k);
+                                los.push(b);
+                                los.push(-b);
+                            }
+                        }
+                    }
+                    for lo in los {
+                        if lo == 0.0 || !dd_valid_fast(h, lo) {
+                            continue;
+                        }
+                        let x = mkval([h, lo]);
+                        rec.record(l, (3u64 << 60) + ((c as u64) << 16) + i, judge_unary(&x));
+                        i += 1;
+                        for pw in [[h, lo], [h, 0.0], [-h, -lo], [0.0, 0.0], [1.0, 0.0], [h, -lo], [next_up(h), 0.0]] {
+                            if !dd_valid_fast(pw[0], pw[1]) {
+                                continue;
+                            }
+                            let y = mkval(pw);
+                            rec.record(l, (3u64 << 60) + ((c as u64) << 16) + i, judge_pair(&x, &y));
+                            i += 1;
+                            rec.record(l, (3u64 << 60) + ((c as u64) << 16) + i, judge_pair(&y, &x));
+                            i += 1;
+                        }
+                    }
+                }
+            }
+        });
+    }
 }
